@@ -1,4 +1,5 @@
 import GohbaseVerif.Lemmas.Conn
+import GohbaseVerif.Gen.Exits
 /-!
 # C03 — a failing region connection completes every request exactly once
 
@@ -167,5 +168,22 @@ example : ∃ s, run (init 2) [.queueDirect 1, .readErr] = some s ∧ s.done = t
     2 ∉ s.ctxDone := by
   refine ⟨_, rfl, ?_⟩
   decide
+
+/-- position of the first occurrence -/
+def posOf (x : String) : List String → Nat
+  | [] => 0
+  | y :: ys => if y == x then 0 else posOf x ys + 1
+
+/-- Regenerated from region/client.go: inside `fail`, `done` is closed first, then the connection
+is closed, and only then is the `sent` map swept (`failSentRPCs`).  The model's single `fail` step
+and its environment assumption "a Write that completes after the failure transition reports an
+error" rest on exactly this order: a call registered *after* the sweep then meets a closed
+connection and is completed by its own sender (`no_stranding`); with the sweep before the close it
+could be written successfully and nobody would ever complete it. -/
+theorem fail_closes_before_sweeping_in_source :
+    GV.Gen.Exits.failCalls.contains "close(c.done)" = true ∧
+    posOf "close(c.done)" GV.Gen.Exits.failCalls < posOf "conn.Close" GV.Gen.Exits.failCalls ∧
+    posOf "conn.Close" GV.Gen.Exits.failCalls < posOf "c.failSentRPCs" GV.Gen.Exits.failCalls ∧
+    posOf "c.failSentRPCs" GV.Gen.Exits.failCalls < GV.Gen.Exits.failCalls.length := by decide
 
 end GV.Conn
